@@ -549,6 +549,13 @@ func scriptInflightRing() []Event {
 		d12, d21, prop(1), prop(1))
 }
 
+// scriptFlowHeartbeat: the window towards a cut-off follower fills and stays full; after the
+// partition heals a heartbeat round un-pauses the flow while the window is still full (the
+// leader then sends an empty append to carry the commit index).
+func scriptFlowHeartbeat() []Event {
+	return seq(camp(1), isolate(3), prop(1), prop(1), prop(1), prop(1), prop(1), heal(), tick(1), prop(1), tick(1), prop(1), prop(1))
+}
+
 // scriptFlowSnapshotLeader: a node that joined through a snapshot later becomes
 // leader and streams to a follower that stops acknowledging.
 func scriptFlowSnapshotLeader() []Event {
@@ -988,6 +995,13 @@ func poolFlow(tier string) (p pool) {
 			s.PropSizes = []int{4, 12, 4, 30, 4, 4, 12, 4, 4, 30, 4, 4, 4, 4, 4}
 			s.UnreachPairs = [][2]uint8{{1, 2}}
 			s.Budget[BUnreach] = 1
+			p.dd = append(p.dd, s)
+		}
+		for vi, c := range []NodeCfg{flowCfg(f, 2, 1, 0, 0), flowCfg(f, 3, 40, 60, 0)} {
+			c.ElectionTick, c.HeartbeatTick, c.Timeout = 10, 1, 10
+			s := ddScn(fmt.Sprintf("flow-heartbeat%d", vi), 3, ids(3), f, scriptFlowHeartbeat(), k, defaultFaults...)
+			s.Cfg = []NodeCfg{c}
+			s.PropSizes = []int{4, 12, 4, 30, 4, 4, 12, 4, 4}
 			p.dd = append(p.dd, s)
 		}
 		// uncommitted-size quota with a partially committed tail
